@@ -82,6 +82,10 @@ type replica struct {
 	// sizePanics counts uploads handed to this replica whose GetSizeBytes()
 	// panicked (see Put).
 	sizePanics int
+	// opCalls counts the calls since the current operation began; storm is set
+	// once it exceeds opLimit.
+	opCalls, opLimit int
+	storm            bool
 	// corruptPuts lists uploads a local store acknowledged but does not read
 	// back correctly (see Put).
 	corruptPuts []string
@@ -185,6 +189,14 @@ func (r *replica) begin(op string, ds ...digest.Digest) (*callRec, *fault) {
 	}
 	c.idx = r.calls
 	r.calls++
+	r.opCalls++
+	if r.opCalls > r.opLimit {
+		// The composite keeps calling this replica for one and the same
+		// operation (e.g. an error handler that falls over again and again).
+		// Break the loop with a hard failure and let the oracle report it.
+		r.storm = true
+		return c, &fault{kind: faultEarly, code: codes.Internal}
+	}
 	if f, ok := r.faults[c.idx]; ok {
 		if f.kind == faultNotFound && op != "Get" {
 			return c, nil
@@ -202,9 +214,18 @@ func (r *replica) end(c *callRec) {
 	r.mu.Unlock()
 }
 
+func (r *replica) opStart() {
+	r.mu.Lock()
+	r.opCalls = 0
+	r.mu.Unlock()
+}
+
 func (r *replica) arm() {
 	r.mu.Lock()
 	r.armed = true
+	if r.opLimit == 0 {
+		r.opLimit = 300
+	}
 	r.calls = 0
 	r.log = nil
 	r.mu.Unlock()
